@@ -37,13 +37,15 @@ LAYOUTS = [
     dict(widths=[8, 24], datatype='I', big=False, analysis=None),
     dict(widths=[32, 32], datatype='F', big=True, analysis=None),
     dict(widths=[16], datatype='I', big=False, analysis='|A1|a|'),
+    dict(widths=[32, 32, 32], datatype='F', big=False, analysis=None, n=1),
+    dict(widths=[16, 32, 8, 24], datatype='I', big=True, analysis=None, n=2),
 ]
 
 
 def image(li):
     L = LAYOUTS[li]
     D = len(L['widths'])
-    events = [[(40 * i + 7 * j + 5) % 250 for j in range(D)] for i in range(3)]
+    events = [[(40 * i + 7 * j + 5) % 250 for j in range(D)] for i in range(L.get('n', 3))]
     blob, lay = fcsgen.build_fcs(events, L['widths'], big=L['big'], datatype=L['datatype'],
                                  analysis=L['analysis'], pad=1)
     return blob, lay, events
@@ -219,8 +221,8 @@ def body_corrupt(B, I):
 
 def true_value(field, lay, li):
     D = len(LAYOUTS[li]['widths'])
-    return {'$TOT': 3, '$PAR': D, '$P1B': LAYOUTS[li]['widths'][0],
-            '$P2B': LAYOUTS[li]['widths'][-1], 'hdr_data_begin': lay['data_begin'],
+    return {'$TOT': LAYOUTS[li].get('n', 3), '$PAR': D, '$P1B': LAYOUTS[li]['widths'][0],
+            '$P2B': LAYOUTS[li]['widths'][min(1, D - 1)], 'hdr_data_begin': lay['data_begin'],
             'hdr_data_end': lay['data_end'], 'hdr_text_end': lay['text_end'],
             '$BEGINDATA': lay['data_begin'], '$ENDDATA': lay['data_end']}[field]
 
@@ -249,7 +251,7 @@ def judge_corrupt(B, r, field, v, lay, events, li):
     if why is None:
         return True
     rowbytes = sum(w // 8 for w in LAYOUTS[li]['widths'])
-    true_extent = 3 * rowbytes
+    true_extent = LAYOUTS[li].get('n', 3) * rowbytes
     data = B.tolist(f.data)
     n_ret = len(data)
     d_ret = len(data[0]) if n_ret else 0
@@ -333,7 +335,7 @@ def conditions(tier):
     mods = ('plot', 'io')
     cs = [Cond('empty_file', make=make_empty, replay=std_replay(body_empty), timeout=60,
                modules=mods, doc='an empty file raises')]
-    for li in range(len(LAYOUTS)):
+    for li in range(4):
         blob, lay, events = image(li)
         n = len(blob)
         nchunks = 4
@@ -347,8 +349,8 @@ def conditions(tier):
                            doc='layout %d (%s): file cut at a symbolic byte in [%d, %d] of %d: '
                                'raises, or returns exactly the intact keywords and events'
                                % (li, LAYOUTS[li], lo, hi, n)))
-    for li in ((0, 1) if q else range(len(LAYOUTS))):
-        for field in FIELDS:
+    for li in ((0, 1, 4, 5) if q else range(len(LAYOUTS))):
+        for field in (FIELDS if li < 4 else ['$TOT', '$PAR', '$P1B', '$P2B']):
             if field == '$P2B' and len(LAYOUTS[li]['widths']) < 2:
                 continue
             cs.append(Cond('corrupt_L%d_%s' % (li, field.replace('$', '')),
